@@ -28,7 +28,7 @@ Theorem roundtrip_pipeline_gen :
                  = map (fun lr => Msg (fst lr) (snd lr)) (combine (save_lines a st) rds)) ->
     (exists s, sort_lines a (save_lines a st) = Some s /\ Permutation s (save_lines a st) /\
                respects (line_must_precede a) s /\
-               real_apply dispatch a s (initial a) = apply_all a s (initial a)) ->
+               forall fin, apply_all a s (initial a) = (fin, true) -> real_apply dispatch a s (initial a) = (fin, true)) ->
     full_conditions a st ->
     exists fin,
       real_load text scan_text dispatch sort_lines a
@@ -48,7 +48,7 @@ Proof.
   { apply respects_map in Hresp. eapply respects_ext; [|exact Hresp].
     intros x y Hxy. exists x, y. unfold the_line. simpl. auto. }
   destruct (roundtrip_abstract_full a st ord Hfull (Permutation_sym Hpo) Hrb) as (fin & Hfin & Hcount & Hrest).
-  rewrite Hdisp, Hfin. exists fin. split; [reflexivity | assumption].
+  rewrite (Hdisp fin Hfin). exists fin. split; [reflexivity | assumption].
 Qed.
 
 Section Real.
@@ -109,8 +109,9 @@ Proof.
   - destruct (print_scan_lines _ Hlines) as (rds & Hl & _ & Hs). exists rds. split; assumption.
   - destruct (sort_stage (app_of_tree t) st apropos fuel WF Hdecl ps Hp Hr) as (s & Hs & Hperm & Hresp).
     exists s. split; [exact Hs|]. split; [exact Hperm|]. split; [exact Hresp|].
+    intros fin Hfin.
     rewrite (dispatch_stage hp tid t st Hnames Htree Hwf Hfull Hcmp Hstr s).
-    + apply real_apply_is_apply_all. intros; reflexivity.
+    + apply real_apply_is_apply_all; [intros; reflexivity | exact Hfin].
     + intros l Hl. eapply Permutation_in; eassumption.
 Qed.
 
